@@ -247,6 +247,14 @@ def run_case(c):
                         stats['steps'] += 1
                         if e[2][1] == -numpy.inf:
                             stats['forced'] += 1
+                nsteps_now = sum(1 for e in ents if e[0] == 'E')
+                stats['nonjump'] += nsteps_now * len(c.props) - sum(1 for e in ents if e[0] == 'J')
+                for ch in sampler.chains:
+                    for l in I.levels_of(ch):
+                        acc = numpy.asarray(l.acceptance['accepted'])[-op[1]:] if op[1] else []
+                        na = int(numpy.sum(acc))
+                        stats['accept'] += na
+                        stats['reject'] += len(acc) - na
                 lines.extend(I.render_oracle(ents, sampler))
                 lines.append('op run %d' % op[1])
                 expect.append('ok run %d' % op[1])
